@@ -163,11 +163,37 @@ func VHBridgeFunction() {
 		return
 	}
 	vReach("accepted")
-	n := vChoose("nargs", 5)
-	args := vArbArgs("arg", n)
+	// first call: 0..4 arguments of any kind; then the same registered function is called again, with
+	// well-typed arguments (whatever the first call was: refused, failed or successful, it leaves nothing behind)
+	vBridgeCallOnce(fs, sig, "arg", vChoose("nargs", 5), false)
+	vGot.ints, vGot.floats, vGot.bools, vGot.strs, vGot.calls = nil, nil, nil, nil, 0
+	vGot.retErr = vBool("again.host.returns.error")
+	n2 := len(sig.params)
+	if sig.variadic >= 0 {
+		n2 += vChoose("again.tail", 2)
+	}
+	vBridgeCallOnce(fs, sig, "again", n2, true)
+	vReach("called-again")
+}
+
+// vBridgeCallOnce: one script-side call of the registered function "f" with n arguments (wellTyped: of the
+// kinds the signature wants, else of any kind), checked against the signature.
+func vBridgeCallOnce(fs *functionStorer, sig vSig, tag string, n int, wellTyped bool) {
+	var args []*variable.Value
+	if wellTyped {
+		for i := 0; i < n; i++ {
+			k := sig.variadic
+			if i < len(sig.params) {
+				k = sig.params[i]
+			}
+			args = append(args, vArbValue(tag+vItoa(i), k, 1))
+		}
+	} else {
+		args = vArbArgs(tag, n)
+	}
 	var res *variable.Value
 	var err error
-	panicked = vTry(func() { res, err = fs.call("f", args) })
+	panicked := vTry(func() { res, err = fs.call("f", args) })
 	vAssert(!panicked, "a script-side call never panics: "+sig.name)
 	// expected outcome
 	arityOK := n == len(sig.params)
@@ -287,6 +313,22 @@ func VHBridgeCommand() {
 		if sig.name == "func(int)" {
 			vAssert(gotInt == int(*args[0].Number), "the int parameter is the converted number")
 		}
+		// a run whose outcome nobody collects (the runner was restored meanwhile), then another run of the
+		// same command: it reports its own outcome
+		retErr = vBool("abandoned.returns.error")
+		cs.call("c", args)
+		vRunGoroutines()
+		retErr = vBool("later.returns.error")
+		out3 := cs.call("c", args)
+		vRunGoroutines()
+		select {
+		case e3 := <-out3:
+			vAssert((e3 != nil) == (retErr && sig.name == "func() error"), "a later run of the same command reports its own outcome")
+		default:
+			vAssert(false, "a later run of the same command completes")
+		}
+		vAssert(calls == 3, "every run invokes the handler")
+		vReach("run-after-abandoned-run")
 	}
 	vReach("called")
 }
